@@ -10,7 +10,7 @@ export base=/var/tmp/verif-selftest
 mkdir -p "$base"
 dirs=("$@"); [ ${#dirs[@]} -eq 0 ] && dirs=(seeded/*/)
 run_one() {
-  d="${1%/}"; name=$(basename "$d"); prop=$(python3 -c "import json;print(json.load(open('$d/meta.json'))['property'])")
+  d="${1%/}"; name=$(basename "$d"); prop=$(python3 -c "import json;m=json.load(open('$d/meta.json'));print(m.get('check',m['property']))")
   wt="$base/$name"
   git -C /repo worktree add --detach "$wt" HEAD >/dev/null 2>&1 || { echo "$name: cannot create worktree"; return; }
   if git -C "$wt" apply "$PWD/$d/patch.diff"; then
